@@ -29,6 +29,7 @@ META = {
                     "GAF reader stub yields Alignment objects whose is_primary comes from the real parser"],
 }
 META["explanation"] += '  The optional columns of the records come in four layouts (other tag + ds:Z + tp + cg; tp alone or cg alone; cg first; tp first), and the CIGAR handed to stat is the one the real parser extracted from that layout.'
+META["explanation"] += "  The read-name column goes through the real parser (names with comments that differ between records of a read, one name starting with '@'); every second harness leaves the last record without a newline."
 
 QL = [10, 7, 4]
 BL = [5, 9, 3]
@@ -103,16 +104,23 @@ def parsed_cigar(cg, tp, layout):
     return "" if (layout == 1 and TP[tp]) else cg
 
 
-def is_primary_of(tp, cg="5=", layout=0, newline=True):
+def fullname(name, i):
+    """the read name column as written in the file (the reader cuts at the first blank): records of one read carry different comments"""
+    return {"a": "@a part=%d ch=12" % i, "b": "b", "c": "c#1 runid=%d" % i}[name]
+PARSED_NAMES = []
+
+
+def is_primary_of(tp, cg="5=", layout=0, newline=True, name="x"):
     """classification by the real parser"""
     GA = M["GA"]
-    line = "x\t10\t0\t5\t+\t>s1\t100\t0\t50\t5\t5\t60" + opt_fields(tp, cg, layout) + ("\n" if newline else "")
+    line = name + "\t10\t0\t5\t+\t>s1\t100\t0\t50\t5\t5\t60" + opt_fields(tp, cg, layout) + ("\n" if newline else "")
     e = stubs.env()
     e.files["probe.gaf"] = stubs.MFile("text", [line], None)
     g = GA.GAF("probe.gaf")
     al = next(iter(g.read_file()))
     g.close()
     PARSED_CG.append(al.cigar)
+    PARSED_NAMES.append(al.query_name)
     return al.is_primary
 
 
@@ -174,8 +182,10 @@ def build(params):
         CIGAR_OK[0] = True
         lay = params.get("layout", 0)
         del PARSED_CG[:]
+        del PARSED_NAMES[:]
         # the last record of a file need not end in a newline
-        prim = [is_primary_of(t, cig[i], lay, newline=not (params.get("nonl") and i == n - 1)) for i, t in enumerate(tps)]
+        prim = [is_primary_of(t, cig[i], lay, newline=not (params.get("nonl") and i == n - 1), name=fullname(names[i], i)) for i, t in enumerate(tps)]
+        names_real = list(PARSED_NAMES)  # the read names as the real parser cut them: this is what stat groups by
         cig_real = list(PARSED_CG)  # what the real parser made of the cg column: this is what stat counts
         cig_seen = [parsed_cigar(cig[i], tps[i], lay) for i in range(n)]
         # the statement's definition: primary iff tp:A is P (or absent, i.e. not marked secondary)
@@ -183,7 +193,7 @@ def build(params):
         e = stubs.env()
         recs = []
         for i in range(n):
-            recs.append((i, (lambda i=i: GA.Alignment(names[i], QL[i], qs[i], qe[i], "+", ">s1", 100, 0, 50, rm[i], BL[i], mq[i],
+            recs.append((i, (lambda i=i: GA.Alignment(names_real[i], QL[i], qs[i], qe[i], "+", ">s1", 100, 0, 50, rm[i], BL[i], mq[i],
                                                         prim[i], cig_real[i], tags={}))))
         e.gaf_records["x.gaf"] = recs
         if params.get("twice"):
@@ -249,7 +259,7 @@ def replay(params, model, wd):
     lay = params.get("layout", 0)
     lines = []
     for i in range(n):
-        lines.append("%s\t%d\t%d\t%d\t+\t>s1\t100\t0\t50\t%d\t%d\t%d%s" % (names[i], QL[i], qs[i], qe[i], rm[i], BL[i], mq[i], opt_fields(tps[i], cig[i], lay)))
+        lines.append("%s\t%d\t%d\t%d\t+\t>s1\t100\t0\t50\t%d\t%d\t%d%s" % (fullname(names[i], i), QL[i], qs[i], qe[i], rm[i], BL[i], mq[i], opt_fields(tps[i], cig[i], lay)))
     cig = [parsed_cigar(cig[i], tps[i], lay) for i in range(n)]
     gaf = os.path.join(wd, "x.gaf")
     text = "".join(l + "\n" for l in lines)
